@@ -32,6 +32,8 @@ pub fn run_property(ctx: &Ctx) -> Option<Report> {
         "C04" => Some(p_ints::run_ints(ctx, p_ints::Mode::C04)),
         "C05" => Some(p_ints::run_ints(ctx, p_ints::Mode::C05)),
         "C06" => Some(p_factory::run_c06(ctx)),
+        #[cfg(feature = "hm_serde")]
+        "C07" if ctx.config == "serde" => Some(p_serde::run_c07_serde(ctx)),
         "C07" => Some(p_cc14::run_c07(ctx)),
         "C08" => Some(p_cc14::run_c08(ctx)),
         "C09" => Some(p_nrpn::run_c09(ctx)),
@@ -61,6 +63,8 @@ pub fn replay_case(prop: &str, sub: &str, case: &Value) -> Option<CheckResult> {
         "C04" => p_ints::replay_ints(p_ints::Mode::C04, sub, case),
         "C05" => p_ints::replay_ints(p_ints::Mode::C05, sub, case),
         "C06" => p_factory::replay_c06(sub, case),
+        #[cfg(feature = "hm_serde")]
+        "C07" if sub == "creation_by_deserialization" => p_serde::replay_c19(sub, case),
         "C07" => p_cc14::replay_c07(sub, case),
         "C08" => p_cc14::replay_c08(sub, case),
         "C09" => p_nrpn::replay_c09(sub, case),
